@@ -144,7 +144,8 @@ pub fn json_array_flatten(result: &mut Value) -> Result<Vec<Value>, Value> {
 
     match error {
         Some(_) => {
-            let error_response = package_invariant_error(None, error);
+            // the offending element is the request this error response answers
+            let error_response = package_invariant_error(error, None);
             Err(error_response)?
         }
         None => Ok(flattened),
